@@ -379,14 +379,14 @@ Qed.
    log-likelihood ratio at the reported point, which is one scan step's NR result;
    it is not below any scan step's NR optimum, and not below the value at the
    initial point (up to the concavity slack) when the initial gamma is scanned *)
-Theorem maximize_scan_value erfR llh tol max_steps max_reps lo hi bs p2s uniform i0 i1 rest ll x st :
+Theorem maximize_scan_value erfR ns_pidx llh tol max_steps max_reps lo hi bs p2s uniform i0 i1 rest ll x st :
   (0 <= max_steps)%Z ->
-  maximize_scan (RNum erfR) llh tol max_steps max_reps ((lo, hi) :: bs) p2s uniform (i0 :: i1 :: rest) = Ok (ll, x, st) ->
-  (r_flag st <= 0)%Z /\
+  maximize_scan (RNum erfR) ns_pidx llh tol max_steps max_reps ((lo, hi) :: bs) p2s uniform (i0 :: i1 :: rest) = Ok (ll, x, st) ->
+  ns_pidx = 0%Z /\ (r_flag st <= 0)%Z /\
   (exists p2, In p2 p2s /\ x = r_x st :: p2 :: rest /\ ll = fst3 (llh x) /\ lo <= i0 /\
               (lo <= hi -> i0 <= hi -> lo <= r_x st <= hi)) /\
   (forall q, In q p2s -> exists xq rq,
-      nr1d_vec (RNum erfR) (neg_obj (RNum erfR) llh) tol max_steps ((lo, hi) :: bs) (i0 :: q :: rest)
+      nr1d_vec (RNum erfR) (neg_obj (RNum erfR) ns_pidx llh) tol max_steps ((lo, hi) :: bs) (i0 :: q :: rest)
         = Ok (xq :: q :: rest, rq) /\
       fst3 (llh (xq :: q :: rest)) <= ll) /\
   (In i1 p2s ->
@@ -395,12 +395,15 @@ Theorem maximize_scan_value erfR llh tol max_steps max_reps lo hi bs p2s uniform
    exists xi, fst3 (llh (i0 :: i1 :: rest)) - Rabs (snd3 (llh (xi :: i1 :: rest))) * Rabs (i0 - xi) <= ll).
 Proof.
   intros Hms H. unfold maximize_scan in H.
-  destruct (minimize_scan (RNum erfR) (neg_obj (RNum erfR) llh) tol max_steps max_reps ((lo, hi) :: bs) p2s uniform
+  destruct (mx_ns_not_first ns_pidx) eqn:En; [discriminate|].
+  assert (Hz : ns_pidx = 0%Z).
+  { unfold mx_ns_not_first in En. apply negb_false_iff in En. apply Z.eqb_eq in En. exact En. }
+  destruct (minimize_scan (RNum erfR) (neg_obj (RNum erfR) ns_pidx llh) tol max_steps max_reps ((lo, hi) :: bs) p2s uniform
               (i0 :: i1 :: rest)) as [[[[x0 f0] st0] rp]|e] eqn:Em; [|discriminate].
   cbn [bind] in H. injection H as <- <- <-.
   apply minimize_scan_status in Em. destruct Em as (Hfl & _ & -> & Hs).
-  assert (Hneg : forall v, fst3 (neg_obj (RNum erfR) llh v) = - fst3 (llh v) /\
-                           snd3 (neg_obj (RNum erfR) llh v) = - snd3 (llh v)).
+  assert (Hneg : forall v, fst3 (neg_obj (RNum erfR) ns_pidx llh v) = - fst3 (llh v) /\
+                           snd3 (neg_obj (RNum erfR) ns_pidx llh v) = - snd3 (llh v)).
   { intros v. unfold neg_obj, fst3, snd3. destruct (llh v) as [[a b] c]. cbn [fst snd].
     unfold mx_neg_f, mx_neg_grad. num_R. split; reflexivity. }
   assert (Hll : forall m, mx_llmax_nr (RNum erfR) m = - m) by (intros m; unfold mx_llmax_nr; num_R; reflexivity).
@@ -408,7 +411,7 @@ Proof.
   pose proof (scan2d_spec erfR _ tol max_steps _ i0 rest p2s i1 x0 st0 Hs) as [(p2 & r0 & Hin & Hr & Hx & Hf & _) Hall].
   pose proof Hr as Hr'. unfold P_MinimizeScan.run in Hr'. apply nr1d_vec_spec in Hr'; [|exact Hms].
   destruct Hr' as (Hxv & Hlo & _ & Hb & Hfv).
-  split; [exact Hfl|]. split; [|split].
+  split; [exact Hz|]. split; [exact Hfl|]. split; [|split].
   - exists p2. split; [exact Hin|]. rewrite Hx. split; [exact Hxv|].
     split; [rewrite Hf, Hfv; rewrite (proj1 (Hneg x0)); lra|].
     split; [exact Hlo|]. first [exact Hb | rewrite <- Hx; exact Hb | rewrite Hx; exact Hb].
@@ -418,8 +421,8 @@ Proof.
     exists (r_x rq), rq. rewrite <- Hxq. split; [exact Hrq|].
     rewrite Hfq in Hle. rewrite (proj1 (Hneg xv)) in Hle. lra.
   - intros Hi1 Hcc.
-    assert (Hcx : convex_fo (fun ns => fst3 (neg_obj (RNum erfR) llh (ns :: i1 :: rest)))
-                            (fun ns => snd3 (neg_obj (RNum erfR) llh (ns :: i1 :: rest)))).
+    assert (Hcx : convex_fo (fun ns => fst3 (neg_obj (RNum erfR) ns_pidx llh (ns :: i1 :: rest)))
+                            (fun ns => snd3 (neg_obj (RNum erfR) ns_pidx llh (ns :: i1 :: rest)))).
     { intros a b. rewrite (proj1 (Hneg _)), (proj2 (Hneg _)), (proj1 (Hneg _)). pose proof (Hcc a b). lra. }
     destruct (scan2d_not_below_initial erfR _ tol max_steps _ i0 rest lo hi bs p2s i1 x0 st0 eq_refl Hms Hs Hi1 Hcx)
       as (xi & ri & _ & _ & Hn).
